@@ -16,7 +16,8 @@
 (*  - single actions: honest ones that succeed, or adversarial ones        *)
 (*    (stale and unknown proof heights, steps out of order, mutations,     *)
 (*    steps through a frozen or expired client).                           *)
-(* After every successful handshake message the relayer re-submits it.     *)
+(* Every successful handshake message is re-submitted once its plan is     *)
+(* through (a successful re-submitted INIT / TRY creates a second end).     *)
 (***************************************************************************)
 EXTENDS HandshakeActions, Json
 
@@ -141,7 +142,7 @@ Pick(S0) ==
         : adv \in { IF roll <= HONEST_PCT THEN {} ELSE AdvClass(S0, AdvWeights[k]) } }
         : fb \in { IF roll <= HONEST_PCT /\ hs = {} THEN OkActs(S0, HonestLocal(S0) \cup HonestRelay(S0)) ELSE {} } }
         : hs \in { IF roll <= HONEST_PCT
-                   THEN OkActs(S0, HonestClass(S0, HonestWeights[k], 3 * Len(sched) > 2 * Depth /\ roll % 3 = 0)) ELSE {} } }
+                   THEN OkActs(S0, HonestClass(S0, HonestWeights[k], 2 * Len(sched) > Depth /\ roll % 2 = 0)) ELSE {} } }
         : blk \in { RandomElement(BlockActs(S0)) } }
         : k \in { RandomElement(1..10) }, roll \in { RandomElement(1..100) } } : TRUE
 
@@ -159,9 +160,22 @@ Follow(S0, a, r) == IF r.res = "ok" /\ IsHandshakeMsg(a) /\ "fu" \notin DOMAIN a
                     ELSE IF r.res = "ok" /\ a.a = "Freeze" THEN FrozenProbes(r.S, a.c)
                     ELSE <<>>
 
+\* Warm-up: three walks out of four start with a full connection handshake, and half of those continue with a
+\* full channel handshake, so that the later (random) part of the walk also explores opened / closing channels.
+NoChans(S0) == \A c \in Chains : DOMAIN Cur(S0, c).chans = {}
+Warmup(S0, k) ==
+    IF Len(sched) = 0 /\ k % 4 # 0
+    THEN UNION { { FullConn(S0, c, i) : i \in Acts(c, "ConnOpenInit", ConnInitR(S0, c)) } : c \in Chains }
+    ELSE IF Len(sched) > 0 /\ Len(sched) <= 20 /\ k % 2 = 1 /\ NoChans(S0)
+    THEN UNION { { FullChan(S0, c, i) : i \in { j \in Acts(c, "ChanOpenInit", ChanInitR(S0, c)) : j.hops[1] \in OpenConns(S0, c) } }
+                 : c \in Chains }
+    ELSE {}
+
 \* the set of plans offered for this draw (empty: take a single action)
 PlanSet(S0, roll, k) ==
-    IF roll <= FULL_PCT THEN { pl \in FullMacros(S0, k) \cup (IF CLOSE /\ k % 2 = 1 THEN CloseMacros(S0) ELSE {}) : pl # <<>> }
+    IF Warmup(S0, k) # {} THEN Warmup(S0, k)
+    ELSE IF roll <= FULL_PCT THEN (IF CLOSE /\ k % 3 = 1 /\ CloseMacros(S0) # {} THEN CloseMacros(S0)
+                                   ELSE { pl \in FullMacros(S0, k) : pl # <<>> })
     ELSE IF roll <= FULL_PCT + MACRO_PCT THEN StepMacros(S0)
     ELSE IF roll <= FULL_PCT + MACRO_PCT + MUT_PCT THEN MutMacros(S0)
     ELSE IF roll <= FULL_PCT + MACRO_PCT + MUT_PCT + OOO_PCT THEN LinkedMacros(S0)
@@ -177,7 +191,7 @@ Next ==
            r == Step(S, a)
        IN /\ S' = r.S
           /\ sched' = Append(sched, a)
-          /\ todo' = Follow(S, a, r) \o Tail(plan)
+          /\ todo' = Tail(plan) \o Follow(S, a, r)      \* re-submissions after the plan: plans predict heights
           /\ (Len(sched') = Depth \/ ~Bounded(r.S)) =>
                 JsonSerialize(OutDir \o "/s" \o ToString(TLCGet("stats").traces) \o "_" \o ToString(RandomElement(1..1000000)) \o ".json",
                               [kind |-> "HS", tp |-> TP, acts |-> sched'])
